@@ -67,9 +67,9 @@ PROPS = {
                  dict(name="c03.answers", quick=3000, thorough=10000, no_model_compare=True, j=6),
                  dict(name="c04.answers", quick=3000, thorough=20000, no_model_compare=True, j=6)],
         rule="one payload format '<maxAnswers> | Query | Clause | ...' and one runner (fresh interpreter, assertz of every clause, the query run through engine.Call, every answer = the query term as instantiated, at most maxAnswers, 5 s timeout). "
-             "c01.answers: pure programs over 2..5 predicates of arity 0..3 with 1..4 clauses, plain or recursive over a list / peano numeral in the first argument (direct and mutual recursion; unguarded recursion in a share), arguments from shared variables, atoms, small integers, f/1 g/2 nesting <= 3, proper and partial lists; bodies of 0..3 goals among user calls, =/2, member/2, append/3, nested conjunction/disjunction without cut, call/N with partially applied closures, goals passed through variables; 1..3 query goals; non-trivial = >= 2 answers or backtracking over a clause that failed after its head had unified. "
-             "c03.answers: control skeletons t/3 (+ a recursive u/2 in a third) over true, fail, !, a/1 (3 answers), b/1 (2 answers), ==, \\==, =, markers, call/1 with cut inside, \\+, once, ->, if-then-else, nested ;, left-nested conjunction, findall; ! as direct conjunct of the body or of a top-level disjunct (claimed placements) everywhere, inside nested branches / left-nested conjunctions (opaque placements) in a third of the bodies; queries that backtrack into t, keep older choice points, wrap t in findall / call / \\+ / once / if-then-else; thorough tier adds EVERY program of two clauses t(X,Y) :- Body with bodies of 0..3 goals over the alphabet {!, fail, a(X), b(Y), X==2, Y==2, once(a(X))} followed by t(0,0) (160000 programs); non-trivial = a cut written in the program is executed while an alternative is pending in its scope. "
-             "c04.answers: p/3 (+ q/1 in half) with catch/3 nested up to 4 deep, balls b1 b2 bb(X) bb(k) bb(_) error(..) and throw(_), catchers that match / do not match / share variables with the goal / catch everything / error(E,_), recoveries that publish the ball, rethrow, fail, are nondeterministic; throws before exit, in the continuation after exit, after redo, inside findall, \\+, call/N, once, if-then-else; errors of built-ins (unknown procedure, atom_length/2, call/1 of a variable or a number, between/3); cut in a share; non-trivial = a ball crossed a catch/3 that did not match or whose goal had exited. "
+             "c01.answers: pure programs over 2..5 predicates of arity 0..3 with 1..4 clauses, plain or recursive over a list / peano numeral in the first argument (direct and mutual recursion; unguarded recursion in a share), arguments from shared variables, atoms, small integers, f/1 g/2 nesting <= 3, proper and partial lists; bodies of 0..3 goals among user calls, =/2, member/2, append/3, nested conjunction/disjunction without cut, call/N with partially applied closures, goals and conjunctions/disjunctions passed through variables bound at call time (G = (A ; B), call((G ; C)), or/2 and/2 helper predicates); 1..3 query goals; non-trivial = >= 2 answers or backtracking over a clause that failed after its head had unified. "
+             "c03.answers: control skeletons t/3 (+ a recursive u/2 in a third) over true, fail, !, a/1 (3 answers), b/1 (2 answers), ==, \\==, =, markers, call/1 with cut inside, \\+, once, ->, if-then-else, nested ;, left-nested conjunction, findall, and control constructs assembled through variables bound at call time (or(A,B) :- call((A;B)) with A = (C -> T), G = (C -> T), call((G ; E)), G = (a, b), call((G, c)), the same inside findall / \\+ / catch, and the stored-clause variants or2(A,B) :- A ; B); ! as direct conjunct of the body or of a top-level disjunct (claimed placements) everywhere, inside nested branches / left-nested conjunctions (opaque placements) in a third of the bodies; queries that backtrack into t, keep older choice points, wrap t in findall / call / \\+ / once / if-then-else; thorough tier adds EVERY program of two clauses t(X,Y) :- Body with bodies of 0..3 goals over the alphabet {!, fail, a(X), b(Y), X==2, Y==2, once(a(X))} followed by t(0,0) (160000 programs); non-trivial = a cut written in the program is executed while an alternative is pending in its scope. "
+             "c04.answers: p/3 (+ q/1 in half) with catch/3 nested up to 4 deep, balls b1 b2 bb(X) bb(k) bb(_) error(..) and throw(_), catchers that match / do not match / share variables with the goal / catch everything / error(E,_), recoveries that publish the ball, rethrow, fail, are nondeterministic; throws before exit, in the continuation after exit, after redo, inside findall, \\+, call/N, once, if-then-else; errors of built-ins (unknown procedure, atom_length/2, call/1 of a variable or a number, between/3); cut in a share; a sixth of the bodies are redo-then-throw patterns (the goal of a catch/3 exits leaving a choice point, the continuation fails, the re-entered goal throws a ball the catcher matches, optionally inside an outer catch/3 that must not get it); non-trivial = a ball crossed a catch/3 that did not match or whose goal had exited, or was caught by a catch/3 re-entered by backtracking after its goal had exited. "
              "Every candidate is screened by a Go transcription of the reference interpreter (harness/c01ref.go): searches over 3000 steps or meeting a unification subject to occurs check are dropped at generation time. Tags: answers, end, steps, iso (would ISO cut transparency give another result), stream specific counters.",
         level_text="PLACEHOLDER (components for C01/C03/C04): the reference interpreter Spec/SLD (textbook SLD resolution over resolvents with cut signal, catch/throw per ISO 7.8.9, call/N, findall, if-then-else, \\+) judges every answer sequence of the real interpreter on the three answer streams; Properties/C01.lean holds sanity theorems about the reference interpreter only.",
         level_note="Trusted: Lean kernel; Spec/SLD as the meaning of 'standard Prolog execution' (with the engine's documented cut transparency, iso=false); the Go transcription of it used for screening and tags cannot affect a verdict.",
